@@ -73,3 +73,7 @@ add("C17", "exploration", "complete enumeration of small prime-order groups in s
     "On 8 prime-order curves over primes <= 61 every ordered pair of points in 4 projective scalings (add, double, negate, equality), every scalar 0..2n+1 on every point through the table, NAF and affine paths, and mul_add on every pair with edge scalars are compared with the textbook group law; inverse_mod and square_root_mod_prime are enumerated completely for all primes <= 257/307; on the 17 standard curves k*G and k*P for edge scalars and ECDH are compared with OpenSSL; invalid points must be rejected by every loader.",
     "OpenSSL 3 CLI and the textbook affine reference are trusted; standard-curve behaviour beyond the listed scalars is inferred from the complete small-group results (same code paths).",
     "E1", "DESIGN.md 4/C17")
+add("C09", "exploration", "bounded exhaustive enumeration of recipient keys x session-key classes x selectors with an independent ECIES (OpenSSL ECDH + reference AES) as oracle",
+    "Full product of 12 recipient scalars (1, 2, n-2, n-1, appnote keys, seed-derived) x 5 session-key classes x selectors 0..3 x 2 encryptor forms: the block must have the stated shape, a valid ephemeral point, and the session key must be recovered without the library (OpenSSL pkeyutl -derive, SHA-256, reference AES-CBC); default recipients per selector with pinned digests of the published keys; invalid ephemeral points must be refused.",
+    "OpenSSL CLI and reference AES/EC trusted; ephemeral randomness comes from the os.urandom seam.",
+    "E1", "DESIGN.md 4/C09")
